@@ -119,7 +119,7 @@ def _base_font(names, glyphs=None, empty=()):
 
     name = fb.font["name"]
     name.setName("Caf\u00e9 \u00a9 \u2122 & <b> \"q\"", 5, 1, 0, 0)
-    name.setName("  Gr\u00fc\u00dfe \u20ac ", 5, 3, 1, 0x407)
+    name.setName("Gr\u00fc\u00dfe  \u20ac", 5, 3, 1, 0x407)
     name.names.append(makeName(b"\xff\xfeA\x80\x81", 6, 3, 1, 0x409))  # odd length: not UTF-16
     name.names.append(makeName(b"\x81\x8f&<\x7e\xff", 7, 1, 0, 0))
     return fb.font
